@@ -230,7 +230,14 @@ class C06(Prop):
             return "overlap:" + "+".join(impl_out["kinds"]) + (":multi-setup-loop" if impl_out.get("d26_steps") else "")
         return super().stats_key(case, impl_out)
 
+    def mutants(self, case, rng):
+        return ac.mutants(case, rng) if "src" in case else iter(())
+
     def shrink(self, case):
+        if "src" not in case:
+            return
+        for t in ac.shrink_src(case["src"]):
+            yield dict(case, src=t)
         lines = case["src"].split("\n")
         for i, l in enumerate(lines):
             if "accfg.setup" in l and i + 2 < len(lines) and "accfg.await" in lines[i + 2]:
